@@ -730,8 +730,14 @@ Proof.
 Qed.
 
 (* ---------------- the full invariant and its preservation ---------------- *)
-Definition FI (s : sys) (gl : ledger) : Prop :=
-  exists a, R cfg s a /\ Vote.Inv n q a /\ Vote.Inv8 a /\ LMI cfg s gl a /\ LCI s gl a.
+(* B is a set of (term, leader) pairs already known to the ghost; it lets a caller follow one ghost
+   state through a step (Safety.v) *)
+Definition FIB (B : list (nat * nat)) (s : sys) (gl : ledger) : Prop :=
+  exists a, R cfg s a /\ Vote.Inv n q a /\ Vote.Inv8 a /\ LMI cfg s gl a /\ LCI s gl a /\ incl B (Vote.leaders a).
+
+Section WithBase.
+Variable B0 : list (nat * nat).
+Notation FI := (FIB B0).
 
 Lemma inv8_step01 a a' : Vote.Inv8 a -> step01 cfg a a' -> Vote.Inv8 a'.
 Proof. intros H [->|St]; [exact H|eapply Vote.step_inv8; eauto]. Qed.
@@ -782,7 +788,7 @@ Lemma fi_frame s gl o i x out :
   (forall a, R cfg s a -> Vote.Inv n q a -> LMI cfg s gl a -> LCI s gl a -> OutOk s gl a i x out) ->
   FI (upd_node s i x out) gl.
 Proof.
-  intros [a [HR [HI [H8 [HM HC]]]]] E Hi HK Hcand Hnoaer Hout.
+  intros [a [HR [HI [H8 [HM [HC HB]]]]]] E Hi HK Hcand Hnoaer Hout.
   destruct (sim_step cfg ru quorum_ok s a o HR) as [a' [S01 HR']]. rewrite E in HR'.
   destruct (Hout a HR HI HM HC) as [Oae Orv Orvr].
   assert (HLs : forall p, In p (Vote.leaders a') <-> In p (Vote.leaders a)).
@@ -794,7 +800,7 @@ Proof.
   - destruct HK as [K1a [K1b [K1c K1d]]].
     eapply (lmi_frame cfg quorum_ok); eauto. intros d t ldr pi pt es lc Hin.
     destruct (Oae _ _ _ _ _ _ _ Hin) as [_ [B1 B2]]. split; assumption.
-  - eapply lci_frame; eauto.
+  - split; [|intros p0 Hp0; apply HLs, HB, Hp0]. eapply lci_frame; eauto.
     intros d t0 ldr pi pt es lc Hin. apply (Oae _ _ _ _ _ _ _ Hin).
 Qed.
 
@@ -807,7 +813,7 @@ Lemma fi_ae s gl o i x src t pi pt es mi lc ldr :
   mi = follower_ack ru pi (last_new pi es) (llen (log x)) ->
   FI (upd_node s i x [(src, AER t true i mi)]) gl.
 Proof.
-  intros [a [HR [HI [H8 [HM HC]]]]] E Hi Hin Hok Hrl Hterm Hge Hlog Hmi.
+  intros [a [HR [HI [H8 [HM [HC HB]]]]]] E Hi Hin Hok Hrl Hterm Hge Hlog Hmi.
   destruct (sim_step cfg ru quorum_ok s a o HR) as [a' [S01 HR']]. rewrite E in HR'.
   destruct (lm_M1 _ _ _ _ HM _ _ _ _ _ _ _ _ Hin) as [Hld [M1 [M2 M3]]].
   pose proof (c_ae_src _ _ _ HC _ _ _ _ _ _ _ _ Hin) as Hsd.
@@ -817,7 +823,7 @@ Proof.
   exists a'. split; [exact HR'|]. split; [eapply (inv_step01 cfg quorum_ok); eauto|].
   split; [eapply inv8_step01; eauto|]. split.
   - eapply (lmi_ae cfg quorum_ok); eauto. intros d t0 ldr0 pi0 pt0 es0 lc0 [Eq|[]]. discriminate.
-  - eapply lci_ae; eauto.
+  - split; [eapply lci_ae; eauto|intros p0 Hp0; apply HLs, HB, Hp0].
 Qed.
 
 Lemma fi_propose s gl o i p :
@@ -828,7 +834,7 @@ Lemma fi_propose s gl o i p :
   fst (gstep cfg ru s o) = upd_node s i x [] ->
   FI (upd_node s i x []) (gl_set gl (term nd) (log x)).
 Proof.
-  intros [a [HR [HI [H8 [HM HC]]]]] Hi Hl nd x E.
+  intros [a [HR [HI [H8 [HM [HC HB]]]]]] Hi Hl nd x E.
   destruct (sim_step cfg ru quorum_ok s a o HR) as [a' [S01 HR']]. rewrite E in HR'.
   assert (HLs : forall pp, In pp (Vote.leaders a') <-> In pp (Vote.leaders a)).
   { eapply (leaders_same cfg quorum_ok); eauto. intros j Hj Hlj Hc.
@@ -836,7 +842,7 @@ Proof.
   exists a'. split; [exact HR'|]. split; [eapply (inv_step01 cfg quorum_ok); eauto|].
   split; [eapply inv8_step01; eauto|]. split.
   - apply (lmi_propose cfg quorum_ok s gl a a'); auto.
-  - apply (lci_propose s gl a a'); auto.
+  - split; [apply (lci_propose s gl a a'); auto|intros p0 Hp0; apply HLs, HB, Hp0].
 Qed.
 
 Lemma fi_leader s gl o i x :
@@ -845,7 +851,7 @@ Lemma fi_leader s gl o i x :
   votes x <> [] -> N.leb (quorum cfg) (llen (votes x)) = true ->
   FI (upd_node s i x []) (gl_set gl (term x) (log x)) /\ gl (term x) = [].
 Proof.
-  intros [a [HR [HI [H8 [HM HC]]]]] E Hi Hc Hl Hlog Hterm Hvne Hquo.
+  intros [a [HR [HI [H8 [HM [HC HB]]]]]] E Hi Hc Hl Hlog Hterm Hvne Hquo.
   destruct (sim_step cfg ru quorum_ok s a o HR) as [a' [S01 HR']]. rewrite E in HR'.
   pose proof (inv_step01 cfg quorum_ok _ _ HI S01) as HI'. pose proof (inv8_step01 _ _ H8 S01) as H8'.
   assert (Hmono : forall p, In p (Vote.leaders a) -> In p (Vote.leaders a')) by (apply (leaders_mono cfg); exact S01).
@@ -862,7 +868,7 @@ Proof.
   split.
   - exists a'. split; [exact HR'|]. split; [exact HI'|]. split; [exact H8'|]. split.
     + apply (lmi_leader cfg quorum_ok s gl a (upd_node s i x []) a' i x); auto.
-    + apply (lci_leader s gl a a' i x); auto.
+    + split; [apply (lci_leader s gl a a' i x); auto|intros p0 Hp0; apply Hmono, HB, Hp0].
   - (* no leader of that term existed, so its ledger is still empty *)
     destruct (gl (term x)) as [|e0 l0] eqn:Eg; [reflexivity|exfalso].
     destruct (lm_G1 _ _ _ _ HM (term x)) as [j Hj]; [rewrite Eg; discriminate|].
@@ -884,7 +890,7 @@ Theorem fi_step : forall s gl o, FI s gl -> exists gl', FI (fst (gstep cfg ru s 
 Proof.
   intros s gl o HF.
   assert (Stay : exists gl', FI s gl' /\ gl_ext gl gl') by (exists gl; split; [exact HF|apply gl_ext_refl]).
-  pose proof HF as [a0 [HR0 [HI0 [H80 [HM0 HC0]]]]].
+  pose proof HF as [a0 [HR0 [HI0 [H80 [HM0 [HC0 HB0]]]]]].
   destruct o as [i|i|i|i|i p ok|k ok|i]; cbn [gstep].
   - (* GElect *)
     unfold valid_id. destruct (N.ltb_spec i (n_nodes cfg)) as [Hi|]; cbn [fst]; [|exact Stay].
@@ -1087,7 +1093,9 @@ Proof.
     all: try (cbn; discriminate).
     all: try (cbn [gstep]; unfold valid_id; destruct (N.ltb_spec i (n_nodes cfg)); [reflexivity|lia]).
 Qed.
+End WithBase.
 
+Definition FI := FIB [].
 
 Lemma LCI_init : LCI (init_sys cfg) (fun _ => []) Vote.init.
 Proof.
@@ -1105,7 +1113,7 @@ Qed.
 Lemma FI_init : FI (init_sys cfg) (fun _ => []).
 Proof.
   exists Vote.init. split; [apply (R_init cfg)|]. split; [apply Vote.inv_init|]. split; [apply Vote.inv8_init|].
-  split; [|apply LCI_init].
+  split; [|split; [apply LCI_init|intros ? []]].
   constructor; intros; try rewrite (init_node_of cfg) in *; cbn in *;
     try apply WI_nil; try apply LM_nil; try contradiction; try discriminate; try congruence.
 Qed.
@@ -1115,7 +1123,7 @@ Proof.
   intros ops. unfold grun.
   assert (G : forall ops s gl, FI s gl -> exists gl', FI (fold_left (fun s o => fst (gstep cfg ru s o)) ops s) gl').
   { induction ops0 as [|o ops0 IH]; intros s gl H; cbn [fold_left]; [eauto|].
-    destruct (fi_step s gl o H) as [gl1 [H1 _]]. eapply IH; eauto. }
+    destruct (fi_step [] s gl o H) as [gl1 [H1 _]]. eapply IH; eauto. }
   eapply G. apply FI_init.
 Qed.
 
@@ -1129,7 +1137,7 @@ Theorem leader_completeness : forall ops,
       forall c, c < n_nodes cfg -> rl (nd_of s c) = Leader -> t < term (nd_of s c) ->
         firstn m (log (nd_of s c)) = firstn m (gl t).
 Proof.
-  intros ops s. destruct (fi_run ops) as [gl [a [HR [HI [H8 [HM HC]]]]]]. fold s in HR, HM, HC.
+  intros ops s. destruct (fi_run ops) as [gl [a [HR [HI [H8 [HM [HC _]]]]]]]. fold s in HR, HM, HC.
   exists gl, a. split; [exact HM|]. split; [exact HC|].
   intros t m HQ c Hc Hl Ht.
   assert (Hld : Ld a (term (nd_of s c)) c).
